@@ -44,6 +44,7 @@ class AppState:
         self.arrays: Dict[int, List[Optional[int]]] = {}
         self.shared_regs: Dict[str, int] = {}
         self.shared_arrays: Dict[int, List[Optional[int]]] = {}
+        self.shared_alias: Dict[int, List[Optional[int]]] = {}
         self.pubs: List[tuple] = []             # publications in order, at the moment of ret_*
         self.unit: List[bool] = [False] * unit_size
 
@@ -182,6 +183,7 @@ class Interp:
             if arr is None:
                 raise Fault(pc, "return of a missing array")
             s.shared_arrays[o[0]] = list(arr)
+            s.shared_alias[o[0]] = arr      # the returned list object itself (an in-process shared memory may alias it)
             s.pubs.append(("arr", o[0], list(arr)))
         elif m == "qalloc":
             a = self.need(o[0], pc, "qubit address undefined")
